@@ -604,6 +604,8 @@ def simple_letters(cls, pre, vis):
         "p4": lambda: [call(cls, "t", "predict_with_scene", 3, arg("l4"))],
         "sk": lambda: [call(cls, "t", "skip_epochs", 3)],
         "sks": lambda: [call(cls, "t", "skip_epochs_for_scene", 3, 7)],
+        # one epoch only: the tracks of scene 3 become idle (not wasted) while scene 0 has none
+        "sk1": lambda: [call(cls, "t", "skip_epochs_for_scene", 3, 1)],
         "idle": lambda: [call(cls, "t", "idle_tracks", unordered=True)],
         "idles": lambda: [call(cls, "t", idle_scene, 3, unordered=True)],
         "w": lambda: [call(cls, "t", "wasted", unordered=True)],
@@ -670,6 +672,8 @@ def batch_letters(cls, pre, vis, two_scenes):
     }
     if two_scenes:
         letters["pb3"] = predict([(0, "l1"), (3, "l4")])
+        # one epoch only: the tracks of scene 3 become idle (not wasted) while scene 0 has none
+        letters["sk1"] = lambda: [call(cls, "t", "skip_epochs_for_scene", 3, 1)]
     return letters
 
 
